@@ -787,6 +787,46 @@ mod u7 {
         std::mem::forget(b);
     }
 
+    /// FOUR scalar values queued before any read, then read interleaved with a fifth write: order of arrival
+    /// (queue disciplines that coincide with FIFO for <= 2 elements, e.g. swap_remove(0), differ from 3 on)
+    fn fifo_many() {
+        let (mut a, mut b, _rx) = mk_pair();
+        assert!(a.arm_ConstructChannel());
+        let cha = a.top();
+        let chb = cha.deep_copy(&mut b);
+        let v: [Value; 5] = [sc(ValueTag::Int), sc(ValueTag::Int), sc(ValueTag::Int), sc(ValueTag::Int), sc(ValueTag::Int)];
+        let mut i = 0;
+        while i < 4 {
+            a.push(cha);
+            a.push(v[i]);
+            assert!(a.arm_ChannelWrite());
+            i += 1;
+        }
+        assert!(qlen(chb) == 4 && quiet(&a) && quiet(&b));
+        let mut k = 0;
+        while k < 2 {
+            b.push(chb);
+            assert!(b.arm_ChannelRead() && quiet(&b));
+            assert!(b.top() == v[k], "values are read in the order they were written");
+            b.pop();
+            k += 1;
+        }
+        a.push(cha);
+        a.push(v[4]);
+        assert!(a.arm_ChannelWrite());
+        while k < 5 {
+            b.push(chb);
+            assert!(b.arm_ChannelRead() && quiet(&b));
+            assert!(b.top() == v[k], "values are read in the order they were written (after an interleaved write)");
+            b.pop();
+            k += 1;
+        }
+        assert!(qlen(cha) == 0, "each value is delivered exactly once");
+        kani::cover!(true, "reachable");
+        std::mem::forget(a);
+        std::mem::forget(b);
+    }
+
     // ================================================================ C09.chan.read_empty.suspends
     #[kani::proof]
     #[kani::unwind(6)]
@@ -978,6 +1018,7 @@ mod u7 {
     inst!(fifo_one_scalar, fifo_one(Sh::Scalar, Sh::Scalar));
     inst!(fifo_one_str_struct, fifo_one(Sh::Str1, Sh::Struct2));
     inst!(fifo_two_scalar, fifo_two(Sh::Scalar, Sh::Scalar));
+    inst!(fifo_many_scalars, fifo_many());
     inst!(fifo_two_str_struct, fifo_two(Sh::Str1, Sh::Struct2));
     inst!(fifo_two_mix_job, fifo_two(Sh::MixJob, Sh::Scalar));
     inst!(fifo_one_mix_int_str, fifo_one(Sh::MixIntStr, Sh::Scalar));
